@@ -17,7 +17,7 @@ RULE = ('seeded spied charts (hand-written handlers under @spy_on, whose undecor
 ASSUMPTIONS = ['no schedule dimension', 'the expected lines are computed from what the processor did (handler-side invocation log), not from a model of its search order']
 PROBES = []
 PLAN = {
-  'quick': {'strata': {'spy': 5000}, 'wall_s': 90, 'chunk': 100, 'min_conclusive': 1000},
+  'quick': {'strata': {'spy': 5000}, 'wall_s': 300, 'chunk': 100, 'min_conclusive': 1000},
   'thorough': {'strata': {'spy': 120000}, 'wall_s': 900, 'chunk': 250, 'min_conclusive': 10000},
 }
 ORACLES = [co.check_spy]
